@@ -35,7 +35,11 @@ fn main() {
         "bind" => {
             let mut rep = Report::new("BIND", "model_checking");
             match args[2].as_str() {
+                "C03" => binbind::bind_c03(&mut rep),
                 "C04" => binbind::bind_c04(&mut rep),
+                "C06" => binbind::bind_c06(&mut rep),
+                "C13" => binbind::bind_c13(&mut rep),
+                "C19" => binbind::bind_c19(&mut rep),
                 "C07" => binbind::bind_c07(&mut rep),
                 "C08" => binbind::bind_c08(&mut rep),
                 "C09" => binbind::bind_c09(&mut rep),
@@ -74,7 +78,10 @@ fn run_check(id: &str) -> i32 {
                     e1::check_c04(&mut rep);
                     binbind::bind_c04(&mut rep)
                 }
-                "C06" => e1::check_c06(&mut rep),
+                "C06" => {
+                    e1::check_c06(&mut rep);
+                    binbind::bind_c06(&mut rep)
+                }
                 "C07" => {
                     e1::check_c07(&mut rep);
                     binbind::bind_c07(&mut rep)
@@ -117,8 +124,14 @@ fn run_check(id: &str) -> i32 {
             let mut rep = Report::new(id, "model_checking");
             match id {
                 "C02" => seq_inc::check_c02(&mut rep),
-                "C03" => seq_inc::check_c03(&mut rep),
-                _ => seq_inc::check_c13(&mut rep),
+                "C03" => {
+                    seq_inc::check_c03(&mut rep);
+                    binbind::bind_c03(&mut rep)
+                }
+                _ => {
+                    seq_inc::check_c13(&mut rep);
+                    binbind::bind_c13(&mut rep)
+                }
             }
             rep.finish()
         }
@@ -135,7 +148,10 @@ fn run_check(id: &str) -> i32 {
                     binbind::bind_c09(&mut rep)
                 }
                 "C15" => seq_fs::check_c15(&mut rep),
-                _ => seq_resolve::check_c19(&mut rep),
+                _ => {
+                    seq_resolve::check_c19(&mut rep);
+                    binbind::bind_c19(&mut rep)
+                }
             }
             rep.finish()
         }
